@@ -13,6 +13,8 @@ import threading
 
 VERIF = os.path.dirname(os.path.abspath(__file__))
 PROPS = ["C%02d" % i for i in range(1, 21)]
+if os.environ.get("BENIGN_PROPS"):             # restrict to some properties (development shortcut)
+    PROPS = os.environ["BENIGN_PROPS"].split(",")
 
 
 def sh(cmd, cwd=None, env=None, timeout=None):
